@@ -19,6 +19,7 @@ import (
 func init() {
 	Register(&Scenario{
 		Name:     "recon",
+		DescToo:  true,
 		Property: "C05",
 		Cfg:      vsched.Config{Horizon: 8 * time.Second},
 		Params: func(tier string) []Param {
